@@ -4,7 +4,7 @@ The primitive file operations of the real `Serializer` — `open(.., 'wb')`, eve
 `close`, `atomicReplace` — are intercepted by replacing the names `open` and `atomicReplace` in the module
 `pysyncobj.serializer` (no repository change).  For every operation that writes the dump file
 (inline `serialize` with the built-in writer, with user serializer functions, failing writers; a REAL fork
-child; an incoming chunked transfer) and every prefix k of its primitive operations = crash point:
+child; an incoming chunked transfer followed by `finishIncoming(True)` = install, or `(False)` = reject, D70) and every prefix k of its primitive operations = crash point:
 the process is "killed" after k operations (inline: nothing after the k-th operation reaches the disk; fork:
 the REAL child dies there — by `_exit(9)` and by real signals SIGKILL / SIGTERM / SIGABRT; the parent's
 `checkSerializing()` must then report FAILED (model: `childKill`), never SUCCESS for a dump that was not written), then
@@ -210,7 +210,8 @@ def user_deserializer(path):
 
 
 def images(fn):
-    return {"dump": sc.hx(sc.read_file(fn)), "tmp": sc.hx(sc.read_file(fn + ".tmp")), "tmp1": sc.hx(sc.read_file(fn + ".1.tmp"))}
+    return {"dump": sc.hx(sc.read_file(fn)), "tmp": sc.hx(sc.read_file(fn + ".tmp")), "tmp1": sc.hx(sc.read_file(fn + ".1.tmp")),
+            "snap": None}
 
 
 def classify(sermod, fn, user, old_data, new_data):
@@ -249,6 +250,9 @@ class Scenario(object):
             import random
             d[0]["blob"] = random.Random(5).randbytes(300000)
         return d
+
+    def fin(self):
+        return self.name != "receive-reject"
 
     def old_data(self):
         return sc.mk_data(3, 2, False) if self.old else None
@@ -309,6 +313,9 @@ class Scenario(object):
                 if ic.dead:
                     break
                 rets.append(bool(rcv.setTransmissionData(c)))
+            if not ic.dead:
+                # what SyncObj.__loadDumpFile(clearJournal=True) does with a received snapshot (D70): install or reject
+                rets.append(bool(rcv.finishIncoming(self.fin())))
             inc = sc.priv(rcv, "incomingTransmissionFile")
             if inc is not None and getattr(inc, "f", None) is not None:
                 inc.f.close()
@@ -326,6 +333,7 @@ def scenarios(tier):
         out.append(Scenario("receive", "receive", old, chunk=24))
         out.append(Scenario("receive-restart-mid", "receive", old, chunk=32))
         out.append(Scenario("receive-no-first", "receive", old, chunk=32))
+        out.append(Scenario("receive-reject", "receive", old, chunk=32))
         if hasattr(os, "fork"):
             out.append(Scenario("fork", "serialize", old, fork=True))
     out.append(Scenario("inline-big", "serialize", True, big=True))
@@ -344,7 +352,7 @@ def model_case(sc_, fs0, ops_real):
         pieces = [o.split(" ")[2] if len(o.split(" ")) > 2 else "" for o in ops_real if o.startswith("write tmp")]
         fail = not any(o.startswith("rename") for o in ops_real)
         return {"k": "crash", "fs": fs0, "inc": False, "what": "serialize", "p": pieces, "fail": fail, "fork": bool(sc_.fork)}
-    return {"k": "crash", "fs": fs0, "inc": False, "what": "receive",
+    return {"k": "crash", "fs": fs0, "inc": False, "what": "receive", "fin": sc_.fin(),
             "chunks": [sc.chunk_repr(c) for c in sc_.chunks]}
 
 
@@ -491,7 +499,8 @@ def run(ctx):
     import ctypes
     missing = [k for k in ("absent", "old", "new") if not cov["classes"].get(k)]
     missing += [k for k in ("rename tmp->dump over existing dump", "rename tmp->dump creating first dump",
-                            "rename incoming tmp1->dump", "openW tmp", "openW tmp1", "write") if not cov["primitives"].get(k)]
+                            "rename incoming tmp1->dump", "remove tmp1", "openW tmp", "openW tmp1", "write")
+                if not cov["primitives"].get(k)]
     if hasattr(os, "fork"):
         missing += [k for k in ("child killed by signal before the rename", "child exits non-zero before the rename")
                     if not cov["primitives"].get(k)]
